@@ -113,7 +113,11 @@ class Runner(object):
             facts = facts_after
             if step_events:
                 events.extend(step_events)
-                break
+                # a history ends at its first event; scripted cells go on after an event that belongs to another
+                # property (facts are edge triggered), so that a follow-up step can still show this property's own
+                own = any(f == self.family for f, _, _ in step_events)
+                if own or not label.startswith("deck:") or any(f == "R" for f, _, _ in step_events):
+                    break
         for fam, key, what in events:
             if fam == self.family and report:
                 rec.violation(key, what, {"ops": done, "label": label})
@@ -321,6 +325,24 @@ def deck():
     cell("setitem/properties/clash-with-sibling", ["prop", "z", enc([1]), "int", A, {}],
          ["prop", "z", enc([2]), "int", None, {}], ["setitem", A, "properties", 0, 15])
     cell("setitem/sections/attached-elsewhere", ["setitem", D, "sections", 1, C])
+    # n-tuple values with an empty element (legal) inside what gets cloned by clone / merge / link
+    for tv in ("(1;)", "(;2)", "(;)"):
+        mk = ["prop", "tp", enc([tv, "(3;4)"]), "2-tuple", A, {}]
+        cell("tuple-empty-element/clone", mk, ["clone", A, True, False], ["clone", 14, True, True])
+        cell("tuple-empty-element/merge", mk, ["merge", B, A, False])
+        cell("tuple-empty-element/merge-strict", mk, ["merge", B, A, True])
+        cell("tuple-empty-element/link", mk, ["set_link", B, A])
+        cell("tuple-empty-element/reassign", mk, ["reassign_values", 14])
+    # an object that was moved in (by index assignment, insert, append, extend, parent=) and is then renamed to a
+    # sibling's name: the new container's name check must see it
+    cell("moved-then-renamed/setitem", ["setitem", D, "sections", 1, C], ["rename", C, enc("a")])
+    cell("moved-then-renamed/insert", ["insert", D, 0, C], ["rename", C, enc("b")])
+    cell("moved-then-renamed/append", ["append", D, C], ["rename", C, enc("a")])
+    cell("moved-then-renamed/extend", ["extend", D, [C]], ["rename", C, enc("b")])
+    cell("moved-then-renamed/set_parent", ["set_parent", C, D], ["rename", C, enc("a")])
+    cell("moved-then-renamed/prop-setitem", ["prop", "k", enc([1]), "int", B, {}], ["prop", "k2", enc([1]), "int", B, {}],
+         ["setitem", B, "properties", 1, P], ["rename", P, enc("k")])
+    cell("moved-then-renamed/prop-insert", ["prop", "k", enc([1]), "int", B, {}], ["insert", B, 0, P], ["rename", P, enc("k")])
     cell("setitem/sections/attached-here", ["setitem", A, "sections", 0, B2])
     cell("setitem/sections/itself", ["setitem", A, "sections", 0, C])
     cell("setitem/sections/ancestor", ["setitem", C, "sections", 0, A])
@@ -409,7 +431,7 @@ def deck():
     cell("ctor/sec/parent-lit", ["sec", "n", "t", LIT_S, {}])
     cell("ctor/prop/parent-doc", ["prop", "n", enc([1]), "int", D, {}])
     cell("ctor/prop/parent-lit", ["prop", "n", enc([1]), "int", LIT_I, {}])
-    for bad in ("bad", (3, 1), -1, (1, 2, 3), 1.5, (-1, 2), ("a", 1)):
+    for bad in ("bad", (3, 1), -1, (1, 2, 3), 1.5, (-1, 2), ("a", 1), ("1", "2"), (None, "2"), ["1", "3"], (1.0, 2.0), (True, 2)):
         cell("ctor/sec/invalid-sec-cardinality", ["sec", "n", "t", B, {"sec_cardinality": enc(bad)}])
         cell("ctor/sec/invalid-prop-cardinality", ["sec", "n", "t", D, {"prop_cardinality": enc(bad)}])
         cell("ctor/prop/invalid-val-cardinality", ["prop", "n", enc([1]), "int", B, {"val_cardinality": enc(bad)}])
@@ -453,7 +475,7 @@ VALUE_POOL = {
     "int": [1, "2", "3.7", 2.9, True, "x", "", None, [1, 2], ["1", "x"], [1, "x"], "[1, 2]", "[1,x]", 10 ** 20, "1e3", "(1;2)",
             {"a": 1}, b"5", dt.date(2020, 1, 1), float("nan"), " 7 ", float("inf"), "inf", "1e999", 10 ** 400, [1, float("inf")]],
     "float": [1.5, "2.5", 1, "x", "", None, [1.0, "2"], [1.5, "x"], "[1.5, 2]", "nan", "1e400", True, "1,5", dt.time(1, 2, 3), 10 ** 400, [1.5, 10 ** 400],
-              float("inf"), "-inf", -0.0],
+              float("inf"), "-inf", -0.0, 0.1 + 0.2, 1.0 / 3, 1234567.1234567891, [2.0 / 3, 1e-17 + 1e-33], 5e-324, 1.7976931348623157e308],
     "boolean": [True, False, "true", "False", "1", "0", "t", "f", 1, 0, 2, "yes", "", None, [True, "false"], "x", [True, "x"]],
     "string": ["s", "", " ", 5, 1.5, True, None, ["a", "b"], "[a, b]", "a\nb", ["x", 5], "[", "]", "[]", {"k": 1}, [], [[1, 2]],
                (1, 2), [(1, 2)], [{"a": 1}], {1, 2}],
@@ -469,7 +491,7 @@ VALUE_POOL = {
                  dt.datetime(2020, 1, 2, 3, 4, 5, tzinfo=dt.timezone.utc),
                  dt.datetime(2020, 1, 2, 3, 4, 5, 9, tzinfo=dt.timezone(dt.timedelta(hours=2))),
                  "2020-01-02 03:04:05+00:00", "2020-01-02 03:04:05.123"],
-    "2-tuple": ["(1;2)", "(1; 2)", ["(1;2)", "(7;8;9)"], ["(7;8;9)", "(1;2)"], ["(3;4)", "(5)"], ["1", "2"], [["1", "2"]], "(1;2;3)", "(1)", "1;2", "", None, "[(1;2),(3;4)]",
+    "2-tuple": ["(1;2)", "(1; 2)", "(1;)", "(;2)", ["(1;)", "(;2)"], ["(1;2)", "(7;8;9)"], ["(7;8;9)", "(1;2)"], ["(3;4)", "(5)"], ["1", "2"], [["1", "2"]], "(1;2;3)", "(1)", "1;2", "", None, "[(1;2),(3;4)]",
                 ["(1;2)", "(3;4)"], [["a", "b"], ["c"]], (1, 2), [(1, 2)], "( a ; b )", "((1;2))", "(;)"],
     "3-tuple": ["(1;2;3)", ["a", "b", "c"], "(1;2)"],
 }
@@ -660,7 +682,7 @@ def rand_struct_op(rng, world, failing=0.3):
         if o is None:
             return ["doc"]
         ck = rng.choice(["sec_cardinality", "prop_cardinality"]) if world.kind(o) == "sec" else "val_cardinality"
-        return ["set_card", o, ck, enc(rng.choice([None, 2, (1, 2), (None, 3), (2, None), "bad", (3, 1), -1, (0, 0)]))]
+        return ["set_card", o, ck, enc(rng.choice([None, 2, (1, 2), (None, 3), (2, None), "bad", (3, 1), -1, (0, 0), ("1", "2"), (None, "2"), ["1", "3"], (1, "2"), ("", 2)]))]
     return ["finalize", rng.choice(docs)] if docs and rng.random() < 0.5 else ["clean", rng.choice(conts)]
 
 
